@@ -1,5 +1,6 @@
 import PybropsModel.J
 import PybropsModel.Model.RRBlup
+import PybropsModel.Model.GenomicSpec
 open Lean
 
 namespace Drv.C04
@@ -21,28 +22,14 @@ def rmat : Json → J.R (List (List Rat)) := J.mat J.rat
 def ofRMat : List (List Rat) → Json := J.ofMat J.ofRat
 def ofORat : Option Rat → Json := J.ofOpt J.ofRat
 
-def absQ (q : Rat) : Rat := if q < 0 then -q else q
-def maxQ (a b : Rat) : Rat := if a < b then b else a
-
-/-- tolerant comparison used by every Spec op: |a-b| ≤ abs or ≤ rel·max(|a|,|b|) -/
-def closeQ (rel abs_ : Rat) (a b : Rat) : Bool :=
-  let d := absQ (a - b)
-  decide (d ≤ abs_) || decide (d ≤ rel * maxQ (absQ a) (absQ b))
-
 def REL : Rat := mkRat 1 1000000000
 def ABS : Rat := mkRat 1 1000000000000
 
-def closeO (a : Option Rat) (b : Option Rat) : Bool :=
-  match a, b with
-  | some x, some y => closeQ REL ABS x y
-  | none, none => true
-  | _, _ => false
-
-def closeRow (a : List (Option Rat)) (b : List Rat) : Bool :=
-  a.length == b.length && (List.zip a b).all (fun p => closeO p.1 (some p.2))
-
-def closeMat (a : List (List (Option Rat))) (b : List (List Rat)) : Bool :=
-  a.length == b.length && (List.zip a b).all (fun p => closeRow p.1 p.2)
+def absQ := GSpec.absQ
+def maxQ := GSpec.maxQ
+def closeQ := GSpec.closeQ
+def closeO (a b : Option Rat) : Bool := GSpec.closeO REL ABS a b
+def closeMat (a : List (List (Option Rat))) (b : List (List Rat)) : Bool := GSpec.closeMat REL ABS a b
 
 /-! ### the model op for linear predictions and statistics -/
 
@@ -55,6 +42,11 @@ def opLin : J.Op := fun j => do
   let g ← J.field j "g" phased
   let X ← J.fieldOpt j "X" rmat
   let Y ← J.fieldOpt j "Y" rmat
+  let um ← J.fieldOpt j "um" rmat
+  let Zm ← J.fieldOpt j "Zm" rmat
+  let bvMat ← J.fieldOpt j "bv_mat" rmat
+  let bvLoc ← J.fieldOpt j "bv_loc" (J.list J.rat)
+  let bvScale ← J.fieldOpt j "bv_scale" (J.list J.rat)
   let A := phaseSum g
   let Z : List (List Rat) := castM A
   let p := ua.length
@@ -88,53 +80,33 @@ def opLin : J.Op := fun j => do
             | none => []
             | some Y => [("score_dom", J.ofList ofORat
                 (score beta (ua ++ ud) Y X (castM (hcat A (hetGM ploidy A))) t))]))
-  pure <| J.obj (base ++ withX ++ dom)
+  let misc := match X, um, Zm with
+    | some X, some um, some Zm =>
+      [("predict_misc", ofRMat (predictNumpyMisc beta um ua X Zm Z t)),
+       ("predict_gm_rejects", J.ofBool (match predictGM beta um ua X A t with | .ok _ => false | .error _ => true))] ++
+      (match Y with
+        | some Y => [("score_misc", J.ofList ofORat (scoreMisc beta um ua Y X Zm Z t))]
+        | none => []) ++
+      (match ud with
+        | some ud =>
+          [("predict_dom_misc", ofRMat (predictNumpyDomMisc beta um ua ud X Zm t ploidy A))] ++
+          (match Y with
+            | some Y => [("score_dom_misc", J.ofList ofORat
+                (score beta (um ++ (ua ++ ud)) Y X (hcat Zm (castM (hcat A (hetGM ploidy A)))) t))]
+            | none => [])
+        | none => [])
+    | _, _, _ => []
+  let bv := match X, bvMat, bvLoc, bvScale with
+    | some X, some m, some l, some sc => [("score_bv", J.ofList ofORat (scoreBV beta ua m l sc X Z t))]
+    | _, _, _, _ => []
+  pure <| J.obj (base ++ withX ++ dom ++ misc ++ bv)
 
-/-! ### Spec oracle for values: the textbook definitions, written independently of the model
-    (index-wise sums straight from the phased genotypes) -/
+/-! ### Spec oracle for values / statistics / alleles: decoding only; the predicates are the pure
+    functions of Model/GenomicSpec.lean (`GSpec.specValues`, `GSpec.specStat`, `GSpec.specAlleles`) -/
 
-def dosageAt (g : List (List (List Int))) (i j : Nat) : Int :=
-  (g.map (fun ph => (ph.getD i []).getD j 0)).sum
-
-def entry (M : List (List Rat)) (i j : Nat) : Rat := (M.getD i []).getD j 0
-
-/-- intercept of trait k: beta[0,k] + (Σ_{r≥1} beta[r,k]) / q -/
-def interceptDef (beta : List (List Rat)) (k : Nat) : Rat :=
-  let q := beta.length
-  entry beta 0 k + ((List.range (q - 1)).map (fun r => entry beta (r+1) k)).sum / (q : Rat)
-
-def isHet (ploidy : Nat) (d : Int) : Bool := d != 0 && d != (ploidy : Int)
-
-/-- additive value of taxon i, trait k -/
-def addDef (ua : List (List Rat)) (g : List (List (List Int))) (i k : Nat) : Rat :=
-  ((List.range ua.length).map (fun j => (dosageAt g i j : Rat) * entry ua j k)).sum
-
-def domDef (ud : List (List Rat)) (ploidy : Nat) (g : List (List (List Int))) (i k : Nat) : Rat :=
-  ((List.range ud.length).map (fun j => if isHet ploidy (dosageAt g i j) then entry ud j k else 0)).sum
-
-def fixedDef (beta X : List (List Rat)) (i k : Nat) : Rat :=
-  ((List.range beta.length).map (fun r => entry X i r * entry beta r k)).sum
-
-def ntaxaOf (g : List (List (List Int))) : Nat := (g.headD []).length
-
-/-- the defined value matrix for a mode -/
-def valueDef (mode : String) (beta ua : List (List Rat)) (ud : Option (List (List Rat)))
-    (X : Option (List (List Rat))) (t ploidy : Nat) (g : List (List (List Int))) : List (List Rat) :=
-  (List.range (ntaxaOf g)).map (fun i => (List.range t).map (fun k =>
-    let a := addDef ua g i k
-    let d := match ud with | some ud => domDef ud ploidy g i k | none => 0
-    let fx := match X with | some X => fixedDef beta X i k | none => 0
-    match mode with
-    | "gebv" => interceptDef beta k + a
-    | "gegv" => interceptDef beta k + a + d
-    | "gebv_numpy" => a
-    | "predict" => fx + a
-    | "predict_dom" => fx + a + d
-    | _ => 0))
-
-def meanQ (l : List Rat) : Rat := l.sum / (l.length : Rat)
-def varQ (l : List Rat) : Rat := let m := meanQ l; meanQ (l.map (fun x => (x - m) * (x - m)))
-def colQ (M : List (List Rat)) (k : Nat) : List Rat := M.map (fun r => r.getD k 0)
+def entry := GSpec.entry
+def meanQ := GSpec.meanQ
+def colQ := GSpec.colQ
 
 structure View where
   name : String
@@ -170,8 +142,7 @@ def opSpecValues : J.Op := fun j => do
   let ploidy ← J.field j "ploidy" J.nat
   let views ← J.field j "views" (J.list parseView)
   let res := views.map (fun v =>
-    let want := valueDef v.mode beta ua ud v.X t ploidy v.g
-    let okv := closeMat v.out want
+    let okv := GSpec.specValues REL ABS v.mode beta ua ud v.X t ploidy v.g v.out
     let okl := if v.labelled then v.taxaOut == v.taxaIn && v.grpOut == v.grpIn
                else v.taxaOut.isNone && v.grpOut.isNone
     (okv, okl, v.name))
@@ -190,41 +161,12 @@ def opSpecStats : J.Op := fun j => do
   let X ← J.fieldOpt j "X" rmat
   let Y ← J.fieldOpt j "Y" rmat
   let stats ← J.field j "stats" (fun s => pure s)
-  let n := ntaxaOf g
-  let gebv := valueDef "gebv" beta ua none none t ploidy g
-  let varA := (List.range t).map (fun k => varQ (colQ gebv k))
-  let freq := (List.range ua.length).map (fun jx =>
-      (((List.range n).map (fun i => dosageAt g i jx)).sum : Rat) / ((ploidy * n : Nat) : Rat))
-  let varGen := (List.range t).map (fun k =>
-      ((ploidy * ploidy : Nat) : Rat) *
-        ((List.range ua.length).map (fun jx => entry ua jx k * entry ua jx k * freq.getD jx 0 * (1 - freq.getD jx 0))).sum)
-  let bulm : List (Option Rat) := (List.zip varA varGen).map (fun p => if p.2 == 0 then none else some (p.1 / p.2))
-  let r2 (mode : String) : List (Option Rat) :=
-    match X, Y with
-    | some X, some Y =>
-      let yhat := valueDef mode beta ua ud (some X) t ploidy g
-      (List.range t).map (fun k =>
-        let y := colQ Y k
-        let m := meanQ y
-        let sse := ((List.zip y (colQ yhat k)).map (fun p => (p.1 - p.2) * (p.1 - p.2))).sum
-        let sst := (y.map (fun a => (a - m) * (a - m))).sum
-        if sst == 0 then none else some (1 - sse / sst))
-    | _, _ => []
-  let checkRow (name : String) (want : List (Option Rat)) : J.R (Option String) := do
-    match ← J.fieldOpt stats name (J.list ratNan) with
-    | none => pure none
-    | some got =>
-      if got.length == want.length && (List.zip got want).all (fun p => closeO p.1 p.2) then pure none
-      else pure (some name)
   let mut bad : List String := []
-  for (name, want) in [("var_A", varA.map some), ("var_G_add", varA.map some), ("var_a", varGen.map some),
-      ("afreq", freq.map some), ("bulmer", bulm), ("score", r2 "predict"), ("score_dom", r2 "predict_dom"),
-      ("var_A_dom", varA.map some),
-      ("var_G", (let gg := valueDef "gegv" beta ua ud none t ploidy g
-                 (List.range t).map (fun k => some (varQ (colQ gg k)))))] do
-    match ← checkRow name want with
-    | some b => bad := bad ++ [b]
+  for name in GSpec.statNames do
+    match ← J.fieldOpt stats name (J.list ratNan) with
     | none => pure ()
+    | some got =>
+      if !(GSpec.specStat REL ABS name beta ua ud X Y t ploidy g got) then bad := bad ++ [name]
   pure <| J.obj [("ok", J.ofBool bad.isEmpty), ("detail", J.ofStr (" ".intercalate bad))]
 
 /-! ### favourable / deleterious / neutral alleles -/
@@ -251,46 +193,26 @@ def opAlleles : J.Op := fun j => do
 /-- definitions on the raw genotypes: the favourable allele of marker j for trait k is the counted
     allele when u[j,k] > 0, the other allele when u[j,k] < 0, none when u[j,k] = 0; counts are sums
     of per-taxon copies; available = count > 0, fixed = every copy in the population, polymorphic =
-    available and not fixed; neutral flags from the raw allele count -/
+    available and not fixed; neutral flags from the raw allele count (`GSpec.specAlleles`) -/
 def opSpecAlleles : J.Op := fun j => do
   let ua ← J.field j "ua" rmat
   let ploidy ← J.field j "ploidy" J.nat
   let g ← J.field j "g" phased
   let obs ← J.field j "obs" (fun s => pure s)
-  let n := ntaxaOf g
-  let p := ua.length
-  let t := (ua.headD []).length
-  let total : Int := ((ploidy * n : Nat) : Int)
-  let cnt (fav : Bool) (jx k : Nat) : Int :=
-    let u := entry ua jx k
-    ((List.range n).map (fun i =>
-      let z := dosageAt g i jx
-      if u == 0 then (0 : Int)
-      else if (fav && u > 0) || (!fav && u < 0) then z else (ploidy : Int) - z)).sum
-  let raw (jx : Nat) : Int := ((List.range n).map (fun i => dosageAt g i jx)).sum
-  let grid {β} (f : Nat → Nat → β) : List (List β) := (List.range p).map (fun jx => (List.range t).map (fun k => f jx k))
-  let eqI (name : String) (want : List (List Int)) : J.R Bool := do
-    pure ((← J.field obs name (J.mat J.int)) == want)
-  let eqB (name : String) (want : List (List Bool)) : J.R Bool := do
-    pure ((← J.field obs name (J.mat J.bool)) == want)
-  let eqF (name : String) (want : List (List Rat)) : J.R Bool := do
-    pure (closeMat (← J.field obs name (J.mat ratNan)) want)
-  let checks : List (String × J.R Bool) := [
-    ("facount", eqI "facount" (grid (cnt true))),
-    ("dacount", eqI "dacount" (grid (cnt false))),
-    ("fafreq", eqF "fafreq" (grid (fun jx k => (cnt true jx k : Rat) / (total : Rat)))),
-    ("dafreq", eqF "dafreq" (grid (fun jx k => (cnt false jx k : Rat) / (total : Rat)))),
-    ("faavail", eqB "faavail" (grid (fun jx k => decide (cnt true jx k > 0)))),
-    ("daavail", eqB "daavail" (grid (fun jx k => decide (cnt false jx k > 0)))),
-    ("fafixed", eqB "fafixed" (grid (fun jx k => cnt true jx k == total))),
-    ("dafixed", eqB "dafixed" (grid (fun jx k => cnt false jx k == total))),
-    ("fapoly", eqB "fapoly" (grid (fun jx k => decide (cnt true jx k > 0) && decide (cnt true jx k < total)))),
-    ("dapoly", eqB "dapoly" (grid (fun jx k => decide (cnt false jx k > 0) && decide (cnt false jx k < total)))),
-    ("nafixed", eqB "nafixed" (grid (fun jx k => entry ua jx k == 0 && (raw jx == 0 || raw jx == total)))),
-    ("napoly", eqB "napoly" (grid (fun jx k => entry ua jx k == 0 && decide (raw jx > 0) && decide (raw jx < total))))]
-  let mut bad : List String := []
-  for (name, c) in checks do
-    if !(← c) then bad := bad ++ [name]
+  let o : GSpec.AlleleObs := {
+    facount := ← J.field obs "facount" (J.mat J.int)
+    dacount := ← J.field obs "dacount" (J.mat J.int)
+    fafreq := ← J.field obs "fafreq" (J.mat ratNan)
+    dafreq := ← J.field obs "dafreq" (J.mat ratNan)
+    faavail := ← J.field obs "faavail" (J.mat J.bool)
+    daavail := ← J.field obs "daavail" (J.mat J.bool)
+    fafixed := ← J.field obs "fafixed" (J.mat J.bool)
+    dafixed := ← J.field obs "dafixed" (J.mat J.bool)
+    fapoly := ← J.field obs "fapoly" (J.mat J.bool)
+    dapoly := ← J.field obs "dapoly" (J.mat J.bool)
+    nafixed := ← J.field obs "nafixed" (J.mat J.bool)
+    napoly := ← J.field obs "napoly" (J.mat J.bool) }
+  let bad := ((GSpec.specAlleles REL ABS ua ploidy g o).filter (fun c => !c.2)).map Prod.fst
   pure <| J.obj [("ok", J.ofBool bad.isEmpty), ("detail", J.ofStr (" ".intercalate bad))]
 
 /-! ### rrBLUP -/
